@@ -57,6 +57,6 @@ ASSUME = ['the peer stays connected and reads', 'loopback socket buffers are lar
           'a scripted would-block is followed at once by a write-readiness event (the real socket is writable)']
 
 def run(tier):
-    return core.standard_run(PROP, tier, MODULES, THEOREMS, gen, oracle, classify, RULE, ASSUME, driver=('drv_live', drivers.LIVE_SOURCES))
+    return core.standard_run(PROP, tier, MODULES, THEOREMS, gen, oracle, classify, RULE, ASSUME, driver=('drv_live', drivers.LIVE_SOURCES), retry=2)
 def replay(path):
     return core.standard_replay(PROP, path, oracle, driver=('drv_live', drivers.LIVE_SOURCES))
